@@ -3726,6 +3726,30 @@ func ruleLocalAccessorsAgree(c *Ctx) {
 				okc = false
 			}
 		})
+		// …and is out of scope at EndPc, the first instruction after the block (EndScope stores LastPC()+1)
+		epF := p.Field("lua", "DbgLocalInfo", "EndPc")
+		ne, oke := 0, true
+		allInstrs(fn, func(in ssa.Instruction) {
+			b, ok := in.(*ssa.BinOp)
+			if !ok || pcParam == nil {
+				return
+			}
+			_, lx := loadsField(b.X, epF)
+			_, ly := loadsField(b.Y, epF)
+			if !(lx && b.Y == ssa.Value(pcParam)) && !(ly && b.X == ssa.Value(pcParam)) {
+				return
+			}
+			ne++
+			op := b.Op
+			if lx {
+				op = flipOp(op) // normalise to: pc op EndPc
+			}
+			if op == token.LEQ || op == token.GTR {
+				oke = false
+			}
+		})
+		c.Sites++
+		c.check(ne > 0 && oke, R, "LocalName:scope-ends-before-EndPc", p.pos(fn.Pos()), "pc < EndPc", "LocalName keeps a variable in scope at the instruction whose index equals its EndPc (inclusive comparison) although EndScope records the first instruction after the block there: for one instruction after `do … end` or after each iteration of a generic for, debug.getlocal still lists (and setlocal still writes) the block's dead variables")
 		c.Sites++
 		c.check(n > 0 && okc, R, "LocalName:scope-starts-at-StartPc", p.pos(fn.Pos()), "StartPc <= pc", "LocalName treats a variable as out of scope at the instruction whose index equals its StartPc (strict comparison): a parameter is '(*temporary)' for a debug.getlocal made from the function's first instruction, a local for one made from the instruction right after its declaration")
 	}
@@ -3882,6 +3906,12 @@ func ruleNumeralTextUnfiltered(c *Ctx) {
 					}
 					switch x := v.(type) {
 					case *ssa.Lookup:
+						base := stripConv(x.X)
+						if ct, ok := base.(*ssa.ChangeType); ok {
+							base = ct.X
+						}
+						return base == text
+					case *ssa.Index:
 						base := stripConv(x.X)
 						if ct, ok := base.(*ssa.ChangeType); ok {
 							base = ct.X
@@ -4388,4 +4418,764 @@ func ruleYieldHandOver(c *Ctx) {
 	}
 	c.Sites++
 	c.check(okc && len(callsTo(fn, kill)) > 0, R, "switchToParentThread:finished-thread-dead-before-its-results-move", p.pos(fn.Pos()), "the kill test comes before every push onto the resumer", "switchToParentThread hands the results of a finishing thread over before it marks the thread dead: when the resumer's registry overflows during the hand-over the thread stays alive ('suspended') although its body has returned or failed")
+}
+
+// ruleResumeFinishDecision: F117. LState.Resume tells a yield from a finished body by the thread's Dead
+// flag, not by an empty call stack (a host function that is the body and yields leaves no frame behind),
+// and it does not push a new first frame onto a thread it has run before.
+func ruleResumeFinishDecision(c *Ctx) {
+	const R = "R06-resumeapi"
+	p := c.P
+	fn := c.need(R, "lua", "(*LState).Resume")
+	run := p.Fn("lua", "threadRun")
+	if fn == nil || run == nil {
+		return
+	}
+	g := p.G(fn)
+	deadF := p.Field("lua", "LState", "Dead")
+	calls := callsTo(fn, run)
+	if len(calls) == 0 {
+		return
+	}
+	byDead, byStack := false, false
+	allInstrs(fn, func(in ssa.Instruction) {
+		ret, ok := in.(*ssa.Return)
+		if !ok || len(ret.Results) != 3 || !g.Dominates(calls[0], in) {
+			return
+		}
+		for _, cd := range g.expandAnd(g.CondsAtInstr(in)) {
+			if !g.Dominates(calls[0], cd.At.Instrs[len(cd.At.Instrs)-1]) {
+				continue // a test made before the thread ran
+			}
+			if _, ok := loadsField(cd.V, deadF); ok {
+				byDead = true
+			}
+			if cl, ok := cd.V.(*ssa.Call); ok && cl.Call.IsInvoke() && cl.Call.Method.Name() == "IsEmpty" {
+				byStack = true
+			}
+		}
+	})
+	c.Sites++
+	c.check(byDead && !byStack, R, "Resume:finished-told-by-the-dead-flag", p.pos(fn.Pos()), "after the thread ran, ResumeOK/ResumeYield is decided by th.Dead", "LState.Resume decides whether the thread has finished by looking at its call stack: a host function that is the body and yields leaves the stack empty, the yield is reported as ResumeOK and the next Resume starts the function again from the beginning")
+}
+
+// ---- round 7 ----
+
+// ruleFindTableRaw: C20g. FindTable creates the tables of a dotted module name; a component "exists"
+// only when it is a field of the table itself. A lookup that follows __index takes an inherited table
+// (package.seeall: every global) for the module's own — require "app.string" then returns the string library.
+func ruleFindTableRaw(c *Ctx) {
+	const R = "R20-order"
+	p := c.P
+	fn := c.need(R, "lua", "(*LState).FindTable")
+	if fn == nil {
+		return
+	}
+	var bad ssa.Instruction
+	raw := 0
+	allInstrs(fn, func(in ssa.Instruction) {
+		sc := staticCallee(in)
+		if sc == nil {
+			return
+		}
+		switch {
+		case recvNamed(sc) == "LState" && (sc.Name() == "GetField" || sc.Name() == "GetTable" || sc.Name() == "getField" || sc.Name() == "getFieldString" || sc.Name() == "GetGlobal"):
+			if bad == nil {
+				bad = in
+			}
+		case strings.HasPrefix(sc.Name(), "RawGet"):
+			raw++
+		}
+	})
+	pos := p.pos(fn.Pos())
+	if bad != nil {
+		pos = p.ipos(bad)
+	}
+	c.Sites++
+	c.check(bad == nil && raw > 0, R, "FindTable:components-looked-up-raw", pos, "each name component is a raw field of the table before it", "FindTable resolves a name component through an accessor that follows __index: under a parent module opened with package.seeall an inherited global table (string, os …) is taken for the sub-module's table — require 'app.string' returns, and writes its functions into, the standard library")
+}
+
+// ruleIndexHandlerGetsCurrentLink: C10g. When the __index / __newindex chain reaches a function handler,
+// the handler is called with the link of the chain it was found on (luaV_gettable walks t), not with the
+// object the lookup started from. In the four field accessors the value pushed right after the handler
+// is the loop-carried current object, never the function's own object parameter.
+func ruleIndexHandlerGetsCurrentLink(c *Ctx) {
+	const R = "R04-siblings"
+	p := c.P
+	push := p.Fn("lua", "(*registry).Push")
+	n := 0
+	for _, name := range []string{"(*LState).getField", "(*LState).getFieldString", "(*LState).setField", "(*LState).setFieldString"} {
+		fn := c.need(R, "lua", name)
+		if fn == nil || push == nil {
+			continue
+		}
+		objParam := paramsOfType(fn, "LValue")
+		okc, found := true, false
+		for _, blk := range fn.Blocks {
+			var pushes []*ssa.Call
+			for _, in := range blk.Instrs {
+				if isCallTo(in, push) {
+					pushes = append(pushes, in.(*ssa.Call))
+				}
+			}
+			if len(pushes) < 3 {
+				continue
+			}
+			found = true
+			second := stripMI(pushes[1].Call.Args[1])
+			if len(objParam) > 0 && second == ssa.Value(objParam[0]) {
+				okc = false
+			}
+			if _, isPhi := second.(*ssa.Phi); !isPhi {
+				okc = false
+			}
+		}
+		n++
+		c.Sites++
+		c.check(found && okc, R, strings.TrimPrefix(name, "(*LState).")+":handler-receives-the-link-it-was-found-on", p.pos(fn.Pos()), "the handler's first argument is the current link of the chain", name+" calls a function handler found further down the __index/__newindex chain with the object the lookup started from instead of the link the handler belongs to: obj[k] on a two-link chain hands the handler obj where Lua hands it the intermediate table — and disagrees with the string-keyed twin (obj.k)")
+	}
+	if n < 4 {
+		c.und(R, "handler-receives-the-link-it-was-found-on", "-", "field accessors not found")
+	}
+}
+
+// ruleGsubFalseKeepsMatch: C14g. A replacement function or table that yields false or nil keeps the
+// match: both assemblers decide that with LVIsFalse on the yielded value, and the 'invalid replacement
+// value' error is raised only for values that are not false.
+func ruleGsubFalseKeepsMatch(c *Ctx) {
+	const R = "R14-repl"
+	p := c.P
+	isFalse := p.Fn("lua", "LVIsFalse")
+	asBool := p.Fn("lua", "LVAsBool")
+	for _, name := range []string{"strGsubFunc", "strGsubTable"} {
+		fn := c.need(R, "lua", name)
+		if fn == nil {
+			continue
+		}
+		g := p.G(fn)
+		p.computeNoReturn()
+		tests := append(callsTo(fn, isFalse), callsTo(fn, asBool)...)
+		okc := len(tests) > 0
+		// every raise in the function is on a path where the truth test said "not false"
+		allInstrs(fn, func(in ssa.Instruction) {
+			if !p.isNoReturnCall(in) || !g.Live(in) {
+				return
+			}
+			guarded := g.holdsOnAllPaths(in.Block(), func(cd Cond) bool {
+				v := cd.V
+				neg := false
+				if u, ok := v.(*ssa.UnOp); ok && u.Op == token.NOT {
+					v, neg = u.X, true
+				}
+				cl, ok := v.(*ssa.Call)
+				if !ok {
+					return false
+				}
+				sc := cl.Call.StaticCallee()
+				if sc == isFalse {
+					return cd.Sense == neg // LVIsFalse false, or !LVIsFalse true
+				}
+				if sc == asBool {
+					return cd.Sense != neg
+				}
+				return false
+			}, 0)
+			if !guarded {
+				okc = false
+			}
+		})
+		c.Sites++
+		c.check(okc, R, name+":false-or-nil-keeps-the-match", p.pos(fn.Pos()), "the yielded value is tested with LVIsFalse and only a non-false value can be an invalid replacement", name+" does not treat a false replacement value like nil: string.gsub(s, p, function(w) return w == 'bb' and 'X' end) raises 'invalid replacement value (a boolean)' for the matches the function declines instead of keeping them (the table form and the function form disagree)")
+	}
+}
+
+// ruleUnsignedZeroFlag: C15g. The '#' flag is dropped for a zero VALUE AS PRINTED: the zero test that
+// feeds the flag wrapper is made on the converted integer, not on the number before conversion (0.5
+// prints as 0 and must not get the 0x prefix).
+func ruleUnsignedZeroFlag(c *Ctx) {
+	const R = "R15-flags"
+	p := c.P
+	nf := c.need(R, "lua", "(LNumber).Format")
+	if nf == nil {
+		return
+	}
+	n, okc := 0, true
+	allInstrs(nf, func(in ssa.Instruction) {
+		st, ok := in.(*ssa.Store)
+		if !ok {
+			return
+		}
+		fa, ok := st.Addr.(*ssa.FieldAddr)
+		if !ok || typeName(fa.X.Type()) != "unsignedState" {
+			return
+		}
+		if b, ok := st.Val.Type().Underlying().(*types.Basic); !ok || b.Kind() != types.Bool {
+			return
+		}
+		if k, isK := constBool(st.Val); isK && !k {
+			return // the constant false of %u
+		}
+		n++
+		cmp, ok := st.Val.(*ssa.BinOp)
+		if !ok {
+			okc = false
+			return
+		}
+		xt, _ := cmp.X.Type().Underlying().(*types.Basic)
+		if xt == nil || xt.Info()&types.IsInteger == 0 {
+			okc = false
+		}
+	})
+	c.Sites++
+	c.check(n > 0 && okc, R, "LNumber.Format:zero-test-on-the-converted-integer", p.pos(nf.Pos()), "the '#'-suppressing zero test compares the integer that is printed", "LNumber.Format decides that the value is zero (no prefix under '#') by looking at the number before it is converted to an integer: string.format('%#x', 0.5) prints 0x0 where C prints 0")
+}
+
+// ruleSignBeforePrefix: C16g. tonumber(s, 16) reads [blanks][sign][0x]digits: the sign is looked for
+// before the 0x prefix is stripped ("-0x10" is -16, "0x-10" is not a numeral), as parseNumber does.
+func ruleSignBeforePrefix(c *Ctx) {
+	const R = "R16-onereader"
+	p := c.P
+	fn := c.need(R, "lua", "parseInteger")
+	if fn == nil {
+		return
+	}
+	g := p.G(fn)
+	var signCmp, prefCmp ssa.Instruction
+	allInstrs(fn, func(in ssa.Instruction) {
+		b, ok := in.(*ssa.BinOp)
+		if !ok || b.Op != token.EQL {
+			return
+		}
+		k, isK := constInt(b.Y)
+		if !isK {
+			return
+		}
+		switch stripConv(b.X).(type) {
+		case *ssa.Lookup, *ssa.Index:
+		default:
+			return
+		}
+		if (k == '-' || k == '+') && signCmp == nil {
+			signCmp = in
+		}
+		if (k == 'x' || k == 'X') && prefCmp == nil {
+			prefCmp = in
+		}
+	})
+	c.Sites++
+	_ = g
+	c.check(signCmp != nil && prefCmp != nil && signCmp.Block() != prefCmp.Block() && canReach(signCmp.Block(), prefCmp.Block()) && !canReach(prefCmp.Block(), signCmp.Block()), R, "parseInteger:sign-before-the-0x-prefix", p.pos(fn.Pos()), "the test for a sign comes before the test for the prefix, never after it", "parseInteger strips the 0x prefix before it looks for a sign: tonumber('-0x10', 16) is nil and tonumber('0x-10', 16) is -16, while tonumber('-0x10'), '-0x10' + 0 and the literal agree on -16 and reject '0x-10'")
+}
+
+// ruleSetlistBatchNumber: C02g / F18. The batch number of a SETLIST is (number of items stored before
+// this flush)/FieldsPerFlush + 1. In this compiler the items stored before are arraycount − pending — two
+// counters of positional items, the open-ended last item counted by neither: the dividend of the division
+// by FieldsPerFlush is a difference of counters (or a single counter) WITHOUT a constant correction.
+// The reference's (na−1)/50+1 counts the open item in na; with this compiler's counters it numbers the
+// open-ended flush after exactly 50·k items like the batch before it ({1,…,50, f()} stores f's results at t[1…]).
+func ruleSetlistBatchNumber(c *Ctx) {
+	const R = "R01-constructor"
+	p := c.P
+	fn := c.need(R, "lua", "compileTableExpr")
+	if fn == nil {
+		return
+	}
+	fpfG, _ := p.SPkg("lua").Members["FieldsPerFlush"].(*ssa.Global)
+	if fpfG == nil {
+		c.und(R, "compileTableExpr:batch-number-from-the-items-stored-before", p.pos(fn.Pos()), "FieldsPerFlush not found")
+		return
+	}
+	n, okc := 0, true
+	var where ssa.Instruction
+	allInstrs(fn, func(in ssa.Instruction) {
+		b, ok := in.(*ssa.BinOp)
+		if !ok || b.Op != token.QUO {
+			return
+		}
+		if u, isLoad := stripConv(b.Y).(*ssa.UnOp); !isLoad || u.X != ssa.Value(fpfG) {
+			return
+		}
+		n++
+		l := lin(b.X)
+		if l.K != 0 || len(l.T) == 0 || len(l.T) > 2 {
+			okc = false
+			if where == nil {
+				where = in
+			}
+		}
+	})
+	pos := p.pos(fn.Pos())
+	if where != nil {
+		pos = p.ipos(where)
+	}
+	c.Sites++
+	c.check(n > 0 && okc, R, "compileTableExpr:batch-number-from-the-items-stored-before", pos, fmt.Sprintf("%d division(s) by FieldsPerFlush, the dividend a difference of counters without a constant", n), "the batch number of a SETLIST is computed from a counter with a constant correction: with this compiler's counters (the open-ended last item is not counted) the flush of a call or '...' after exactly 50·k positional items gets the number of the batch before it — {1, …, 50, f()} stores the results of f() at t[1…]")
+}
+
+// ruleNoIntegerDivisionByUnknown: C08g. Constant folding evaluates arithmetic at load time with the
+// VM's own helpers: a Go integer division or remainder whose divisor is not known to be non-zero panics
+// with 'integer divide by zero' — a Go run-time error that leaves Load/LoadString as a panic
+// (`return 7 % 0`). Every integer / or % with a non-constant divisor in a function the folding can reach
+// is guarded by a test of the divisor against zero.
+func ruleNoIntegerDivisionByUnknown(c *Ctx) {
+	const R = "R08-panics"
+	p := c.P
+	root := p.Fn("lua", "constFold")
+	if root == nil {
+		c.und(R, "constFold:no-integer-division-by-an-unchecked-value", "-", "constFold not found")
+		return
+	}
+	seen := map[*ssa.Function]bool{}
+	var order []*ssa.Function
+	var visit func(f *ssa.Function, d int)
+	visit = func(f *ssa.Function, d int) {
+		if f == nil || seen[f] || f.Blocks == nil || d > 4 || f.Pkg == nil || f.Pkg.Pkg.Path() != luaPath {
+			return
+		}
+		seen[f] = true
+		order = append(order, f)
+		allInstrs(f, func(in ssa.Instruction) {
+			if sc := staticCallee(in); sc != nil {
+				visit(sc, d+1)
+			}
+		})
+	}
+	visit(root, 0)
+	var bad ssa.Instruction
+	who := ""
+	for _, f := range order {
+		g := p.G(f)
+		allInstrs(f, func(in ssa.Instruction) {
+			b, ok := in.(*ssa.BinOp)
+			if !ok || (b.Op != token.QUO && b.Op != token.REM) {
+				return
+			}
+			bt, ok := b.X.Type().Underlying().(*types.Basic)
+			if !ok || bt.Info()&types.IsInteger == 0 {
+				return
+			}
+			if _, isK := constInt(b.Y); isK {
+				return
+			}
+			// a divisor that is a Lua number turned into an integer: the script (or the folded source
+			// text) decides its value. Divisors that are Go-side quantities (a numeral base, a segment size)
+			// are bounded by their callers and not judged here
+			cvd, isCv := b.Y.(*ssa.Convert)
+			if !isCv {
+				return
+			}
+			if ft, ok := cvd.X.Type().Underlying().(*types.Basic); !ok || ft.Info()&types.IsFloat == 0 {
+				return
+			}
+			nonzero := false
+			for _, cd := range g.expandAnd(g.CondsAtInstr(in)) {
+				cmp, ok := cd.V.(*ssa.BinOp)
+				if !ok {
+					continue
+				}
+				k, isK := constInt(cmp.Y)
+				if !isK || k != 0 || vkey(stripConv(cmp.X)) != vkey(stripConv(b.Y)) {
+					continue
+				}
+				if (cmp.Op == token.NEQ && cd.Sense) || (cmp.Op == token.EQL && !cd.Sense) || (cmp.Op == token.GTR && cd.Sense) {
+					nonzero = true
+				}
+			}
+			if !nonzero && bad == nil {
+				bad, who = in, fname(f)
+			}
+		})
+	}
+	pos := "-"
+	if bad != nil {
+		pos = p.ipos(bad)
+	}
+	c.Sites += len(order)
+	c.check(bad == nil, R, "constFold:no-integer-division-by-an-unchecked-value", pos, fmt.Sprintf("%d functions reachable from constFold, no integer / or %% by an unchecked divisor", len(order)), who+" divides integers by a value that is not known to be non-zero and is reachable from constant folding: `return 7 % 0` panics with 'integer divide by zero' inside the compiler, which Compile does not convert — LoadString leaves as a Go panic instead of yielding a function (nan at run time)")
+}
+
+// ruleFloatKeyToIndex: C09g. A numeric key addresses the array part only when it is integral: in the
+// table's own methods a float is converted to an int (to index, or to compare with the array length)
+// only on paths where isInteger / isArrayKey has answered true for that value. Truncating 1.5 to 1 makes
+// Next resume inside the array part from a key that lives in the hash part — pairs never terminates.
+func ruleFloatKeyToIndex(c *Ctx) {
+	const R = "R09-route"
+	p := c.P
+	isInt, isArr := p.Fn("lua", "isInteger"), p.Fn("lua", "isArrayKey")
+	n := 0
+	for _, fn := range p.srcFuncs {
+		if fn.Pkg == nil || fn.Pkg.Pkg.Path() != luaPath || recvNamed(fn) != "LTable" {
+			continue
+		}
+		var g *PCFG
+		k := 0
+		allInstrs(fn, func(in ssa.Instruction) {
+			cv, ok := in.(*ssa.Convert)
+			if !ok {
+				return
+			}
+			from, ok1 := cv.X.Type().Underlying().(*types.Basic)
+			to, ok2 := cv.Type().Underlying().(*types.Basic)
+			if !ok1 || !ok2 || from.Info()&types.IsFloat == 0 || to.Info()&types.IsInteger == 0 {
+				return
+			}
+			if _, isK := cv.X.(*ssa.Const); isK {
+				return
+			}
+			if g == nil {
+				g = p.G(fn)
+			}
+			if !g.Live(in) {
+				return
+			}
+			n++
+			k++
+			integral := g.holdsOnAllPaths(in.Block(), func(cd Cond) bool {
+				cl, ok := cd.V.(*ssa.Call)
+				if !ok || !cd.Sense {
+					return false
+				}
+				sc := cl.Call.StaticCallee()
+				if sc != isInt && sc != isArr {
+					return false
+				}
+				return vkey(stripConv(cl.Call.Args[0])) == vkey(stripConv(cv.X)) || stripConv(cl.Call.Args[0]) == stripConv(cv.X)
+			}, 0)
+			c.Sites++
+			c.check(integral, R, fmt.Sprintf("%s:float-key-converted-only-when-integral#%d", fname(fn), k), p.ipos(in), "isInteger/isArrayKey holds for the key on every path to the conversion", fname(fn)+" converts a numeric key to an int without having established that it is integral: a fractional key (t[1.5]), which lives in the hash part, is truncated to an array position — next/pairs resumes inside the array part, revisits keys and never reaches the rest (pairs does not terminate)")
+		})
+	}
+	if n == 0 {
+		c.okT(R, "float-key-converted-only-when-integral", "-", "no float-to-int conversion of a key in the table methods")
+	}
+}
+
+// ruleHandlerLoopsBounded: C11g. The context is polled between dispatches: the work of one instruction
+// must be bounded by the instruction's operands (a SETLIST batch, a VARARG count), never by values the
+// script computes. A loop inside a VM handler whose exit test compares floating-point values (Lua
+// numbers: a for loop's limit and step) runs the script's loop inside one dispatch — no cancellation,
+// and with a zero step no end.
+func ruleHandlerLoopsBounded(c *Ctx) {
+	const R = "R11-poll"
+	p := c.P
+	t := p.vmTable()
+	n := 0
+	for _, oi := range t.Ops {
+		if oi.Handler == nil {
+			continue
+		}
+		g := p.G(oi.Handler)
+		for i, li := range g.loops() {
+			n++
+			floatExit := false
+			for blk := range li.Body {
+				iff, ok := blk.Instrs[len(blk.Instrs)-1].(*ssa.If)
+				if !ok {
+					continue
+				}
+				exits := false
+				for _, s := range blk.Succs {
+					if !li.Body[s] {
+						exits = true
+					}
+				}
+				if !exits {
+					continue
+				}
+				var hasFloat func(v ssa.Value, d int) bool
+				hasFloat = func(v ssa.Value, d int) bool {
+					if d > 4 {
+						return false
+					}
+					if b, ok := v.(*ssa.BinOp); ok {
+						if bt, ok := b.X.Type().Underlying().(*types.Basic); ok && bt.Info()&types.IsFloat != 0 {
+							return true
+						}
+						return hasFloat(b.X, d+1) || hasFloat(b.Y, d+1)
+					}
+					if ph, ok := v.(*ssa.Phi); ok {
+						for _, e := range ph.Edges {
+							if hasFloat(e, d+1) {
+								return true
+							}
+						}
+					}
+					if u, ok := v.(*ssa.UnOp); ok {
+						return hasFloat(u.X, d+1)
+					}
+					return false
+				}
+				if hasFloat(iff.Cond, 0) {
+					floatExit = true
+				}
+			}
+			c.Sites++
+			c.check(!floatExit, R, fmt.Sprintf("handler[%s]:loop#%d:bounded-by-operands", oi.Name, i+1), p.pos(oi.Handler.Pos()), "the loop's exit does not compare Lua numbers", fmt.Sprintf("the handler of %s contains a loop whose exit compares floating-point values: the iterations of a script-level loop run inside one dispatch, between two polls of the context — `for i = 1, 1e13 do end` cannot be cancelled and `for i = 1, 0, 0 do end` never returns", oi.Name))
+		}
+	}
+	if n == 0 {
+		c.okT(R, "handler-loops", "-", "no loop in any VM handler")
+	}
+}
+
+// ruleSelectDispatchesFiredCase: C13g. channel.select hands the outcome to the handler of the case that
+// fired, with the arguments of that case's direction: the direction is read from the very element of the
+// case list that reflect.Select reported — the list is indexed by the position Select returned, not by a
+// corrected copy of it (a list that got the cancellation case in front while the index was shifted back
+// dispatches every case with the direction of its neighbour).
+func ruleSelectDispatchesFiredCase(c *Ctx) {
+	const R = "R13-sendguard"
+	p := c.P
+	fn := c.need(R, "lua", "channelSelect")
+	if fn == nil {
+		return
+	}
+	var sel *ssa.Call
+	allInstrs(fn, func(in ssa.Instruction) {
+		if pk, n, ok := stdCall(in); ok && pk == "reflect" && n == "Select" {
+			sel = in.(*ssa.Call)
+		}
+	})
+	if sel == nil {
+		c.und(R, "channelSelect:direction-of-the-case-that-fired", p.pos(fn.Pos()), "reflect.Select not found")
+		return
+	}
+	var posEx ssa.Value
+	for _, r := range *sel.Referrers() {
+		if ex, ok := r.(*ssa.Extract); ok && ex.Index == 0 {
+			posEx = ex
+		}
+	}
+	g := p.G(fn)
+	n, okc := 0, true
+	var where ssa.Instruction
+	allInstrs(fn, func(in ssa.Instruction) {
+		ia, ok := in.(*ssa.IndexAddr)
+		if !ok || posEx == nil || !g.Dominates(sel, in) {
+			return
+		}
+		if typeName(ia.X.Type()) != "reflect.SelectCase" {
+			if sl, ok := ia.X.Type().Underlying().(*types.Slice); !ok || typeName(sl.Elem()) != "reflect.SelectCase" {
+				return
+			}
+		}
+		n++
+		if stripConv(ia.Index) != posEx {
+			l := lin(ia.Index)
+			le := lin(posEx)
+			if sameTerms(l, le) != 1 || l.K != le.K {
+				okc = false
+				if where == nil {
+					where = in
+				}
+			}
+		}
+	})
+	pos := p.ipos(sel)
+	if where != nil {
+		pos = p.ipos(where)
+	}
+	c.Sites++
+	c.check(n > 0 && okc, R, "channelSelect:direction-of-the-case-that-fired", pos, "the case list is indexed by the position reflect.Select returned", "channel.select reads the direction of the fired case from a different element of the case list than the one reflect.Select reported (the index was corrected, the list was not): under a context the receive handler is called with the arguments of a send case — the message is taken from the channel and never reaches the receiver")
+}
+
+// ruleYieldRoomForOwnConvention: C12g. The room asked for before a yield covers what is pushed: the
+// values and, unless THIS thread was resumed through a wrapper, the leading true. Every read of the
+// result-convention flag in switchToParentThread is a read of the yielding thread's own flag.
+func ruleYieldRoomForOwnConvention(c *Ctx) {
+	const R = "R06-killarg"
+	p := c.P
+	fn := c.need(R, "lua", "switchToParentThread")
+	wF := p.Field("lua", "LState", "wrapped")
+	if fn == nil || wF == nil {
+		return
+	}
+	n, okc := 0, true
+	var where ssa.Instruction
+	allInstrs(fn, func(in ssa.Instruction) {
+		u, ok := in.(*ssa.UnOp)
+		if !ok || u.Op != token.MUL {
+			return
+		}
+		fa, ok := u.X.(*ssa.FieldAddr)
+		if !ok || fieldOf(fa) != wF {
+			return
+		}
+		n++
+		if fa.X != ssa.Value(fn.Params[0]) {
+			okc = false
+			if where == nil {
+				where = in
+			}
+		}
+	})
+	pos := p.pos(fn.Pos())
+	if where != nil {
+		pos = p.ipos(where)
+	}
+	c.Sites++
+	c.check(n > 0 && okc, R, "switchToParentThread:convention-read-from-the-yielding-thread", pos, fmt.Sprintf("%d read(s) of the convention flag, all of the thread that hands over", n), "switchToParentThread consults the result-convention flag of another thread (the resumer's) when it sizes or performs the hand-over: the room check and the pushes disagree by one slot when a coroutine started by coroutine.wrap resumes a child with coroutine.resume — the overflow is raised half-way again, the child stays suspended with its yield pending")
+}
+
+// ruleResumeRoomChecked: F118. The values of a resume are moved onto a suspended thread only after its
+// registry was found to hold them: in every function that runs a thread, the path that pads the values
+// of a later resume (the thread had started) has passed a canHold test on that thread's registry.
+func ruleResumeRoomChecked(c *Ctx) {
+	const R = "R06-resumeapi"
+	p := c.P
+	run := p.Fn("lua", "threadRun")
+	pad := p.Fn("lua", "(*LState).padResumeValues")
+	can := p.Fn("lua", "(*registry).canHold")
+	if run == nil || pad == nil {
+		return
+	}
+	for _, fn := range p.srcFuncs {
+		if fn.Pkg == nil || fn.Pkg.Pkg.Path() != luaPath || len(callsTo(fn, run)) == 0 {
+			continue
+		}
+		g := p.G(fn)
+		for i, pc := range callsTo(fn, pad) {
+			okc := can != nil && g.holdsOnAllPaths(pc.Block(), func(cd Cond) bool {
+				v, neg := cd.V, false
+				if u, ok := v.(*ssa.UnOp); ok && u.Op == token.NOT {
+					v, neg = u.X, true
+				}
+				cl, ok := v.(*ssa.Call)
+				return ok && cl.Call.StaticCallee() == can && cd.Sense != neg
+			}, 0)
+			c.Sites++
+			c.check(okc, R, fmt.Sprintf("%s:room-checked-before-the-values-move#%d", fname(fn), i+1), p.ipos(pc), "canHold answered true on every path to the hand-over of a later resume", fname(fn)+" moves the values of a resume onto a suspended thread without having asked whether its registry can hold them: when it overflows half-way the error leaves resume as a raise, the values already moved stay on the coroutine's stack and every later resume overflows again")
+		}
+	}
+}
+
+// ruleTemporaryNeedsPositiveIndex: F119. findLocal names a slot "(*temporary)" only for an index of at
+// least 1: index 0 and negative indices address registers below the frame (the function being called).
+func ruleTemporaryNeedsPositiveIndex(c *Ctx) {
+	const R = "R17-scope"
+	p := c.P
+	fn := c.need(R, "lua", "(*LState).findLocal")
+	if fn == nil {
+		return
+	}
+	g := p.G(fn)
+	ints := paramsOfType(fn, "int")
+	if len(ints) == 0 {
+		return
+	}
+	no := ints[len(ints)-1]
+	n, okc := 0, true
+	allInstrs(fn, func(in ssa.Instruction) {
+		ret, ok := in.(*ssa.Return)
+		if !ok || len(ret.Results) != 1 {
+			return
+		}
+		if s, isS := constStr(ret.Results[0]); !isS || s == "" {
+			return
+		}
+		n++
+		_, lo, _, hasLo := bounds(g, in, no)
+		if !hasLo || lo < 1 {
+			// also through a value-form conjunction
+			ok2 := false
+			for _, cd := range g.expandAnd(g.CondsAtInstr(in)) {
+				if b, ok := cd.V.(*ssa.BinOp); ok && cd.Sense && b.X == ssa.Value(no) {
+					if k, isK := constInt(b.Y); isK && ((b.Op == token.GTR && k >= 0) || (b.Op == token.GEQ && k >= 1)) {
+						ok2 = true
+					}
+				}
+			}
+			if !ok2 {
+				okc = false
+			}
+		}
+	})
+	c.Sites++
+	c.check(n > 0 && okc, R, "findLocal:temporary-only-for-a-positive-index", p.pos(fn.Pos()), "the constant name is returned only where the index is known to be >= 1", "findLocal names a slot '(*temporary)' without having checked that the index is positive: debug.getlocal(1, 0) returns '(*temporary)' and the function being called, a register below the frame")
+}
+
+// ruleAbsoluteTopRestoredAbsolutely: C05g (and C10e). reg.Top() is an absolute registry index,
+// LState.SetTop takes a frame-relative one: a stack height captured with reg.Top() is restored with
+// reg.SetTop. At top level the two coincide (no frame, base 0), inside a host function they differ by the
+// frame's base — the restore lands LocalBase slots too high, or overflows inside the recovery.
+func ruleAbsoluteTopRestoredAbsolutely(c *Ctx) {
+	const R = "R05-restore"
+	p := c.P
+	relSet := p.Fn("lua", "(*LState).SetTop")
+	absTop := p.Fn("lua", "(*registry).Top")
+	if relSet == nil || absTop == nil {
+		c.und(R, "absolute-top-restored-absolutely", "-", "LState.SetTop / registry.Top not found")
+		return
+	}
+	// resolve a value through a captured single-assignment variable to what was stored into it
+	var origin func(v ssa.Value, f *ssa.Function, d int) ssa.Value
+	origin = func(v ssa.Value, f *ssa.Function, d int) ssa.Value {
+		v = stripConv(v)
+		if d > 4 {
+			return v
+		}
+		u, ok := v.(*ssa.UnOp)
+		if !ok || u.Op != token.MUL {
+			return v
+		}
+		var cell ssa.Value = u.X
+		owner := f
+		if fv, ok := cell.(*ssa.FreeVar); ok && f.Parent() != nil {
+			// the binding in the enclosing function
+			idx := -1
+			for i, x := range f.FreeVars {
+				if x == fv {
+					idx = i
+				}
+			}
+			owner = f.Parent()
+			cell = nil
+			allInstrs(owner, func(in ssa.Instruction) {
+				if mc, ok := in.(*ssa.MakeClosure); ok && mc.Fn == ssa.Value(f) && idx >= 0 && idx < len(mc.Bindings) {
+					cell = mc.Bindings[idx]
+				}
+			})
+			if cell == nil {
+				return v
+			}
+			if _, isFV := cell.(*ssa.FreeVar); isFV {
+				return origin(&ssa.UnOp{Op: token.MUL, X: cell}, owner, d+1)
+			}
+		}
+		al, ok := cell.(*ssa.Alloc)
+		if !ok {
+			return v
+		}
+		var stored []ssa.Value
+		for _, r := range *al.Referrers() {
+			if st, ok := r.(*ssa.Store); ok && st.Addr == ssa.Value(al) {
+				stored = append(stored, st.Val)
+			}
+		}
+		if len(stored) == 1 {
+			return origin(stored[0], owner, d+1)
+		}
+		return v
+	}
+	n := 0
+	var bad ssa.Instruction
+	who := ""
+	for _, fn := range p.srcFuncs {
+		if fn.Pkg == nil || fn.Pkg.Pkg.Path() != luaPath {
+			continue
+		}
+		for _, cl := range callsTo(fn, relSet) {
+			n++
+			o := origin(cl.Call.Args[1], fn, 0)
+			if oc, ok := o.(*ssa.Call); ok && oc.Call.StaticCallee() == absTop && bad == nil {
+				bad, who = cl, fname(fn)
+			}
+		}
+	}
+	pos := "-"
+	if bad != nil {
+		pos = p.ipos(bad)
+	}
+	c.Sites += n
+	c.check(n > 10 && bad == nil, R, "absolute-top-restored-absolutely", pos, fmt.Sprintf("%d calls of LState.SetTop, none with a height taken from reg.Top()", n), who+" restores a stack height captured with reg.Top() (an absolute registry index) through LState.SetTop (a frame-relative one): inside a host function the restore is off by the frame's base — the value stack is left too high, or the restore overflows inside the recovery and the protected call is left as a Go panic")
 }
